@@ -309,6 +309,25 @@ def r3_arithmetic(chk, F):
             chk.samples.append({k: v for k, v in o.items() if k != "detail"})
             break
     _r3_tail(chk, F, rule, total_ok, fn)
+    # R4 over the whole input space (the R3 cells above stop at +/-30 000 years): no panic, wrap or lossy cast for any i32 year
+    r4_every_year(chk, F, "C08.R4")
+
+
+def r4_every_year(chk, F, rule):
+    """maybe_from_gregorian interpreted over every i32 year, each month, every field value the validity predicate may accept, with the
+    leap-day loops abstracted to zero / one arbitrary iteration: no panic, wrap or lossy cast on any path (also run by C13, whose
+    'any numeric magnitude' clause reaches this function from every date parser)"""
+    nfull = 0
+    for obl, tot in _parallel(_r3_job, [(F, (it, m, True)) for it in (0, 1) for m in range(1, 13)]):
+        for o in obl:
+            if o["rule"] == "RULE-R4":
+                o["rule"] = rule
+        chk.obl.extend(obl)
+        nfull += tot
+    bad = [o for o in chk.obl if o["rule"] == rule and o["instance"].endswith("[every i32 year]") and not o["ok"]]
+    chk.ob(rule, "Epoch::maybe_from_gregorian[every i32 year]", "no-panic-wrap-or-lossy-cast-on-any-path", not bad,
+           "interpretation over the whole input space, leap-day loops abstracted", detail=None if not bad else "%d site(s) reported above" % len(bad))
+    chk.floor(rule, "maybe_from_gregorian return paths explored over every i32 year", nfull, 100)
 
 
 _JOB_F = None
@@ -329,11 +348,13 @@ def _r3_job(job):
     F = _JOB_F
     chk = Check("C08", "quick", F)
     chk.known = []
-    tot = _r3_cell(chk, F, job[0], job[1])
+    tot = _r3_cell(chk, F, job[0], job[1], full=len(job) > 2 and job[2])
     return chk.obl, tot
 
 
-def _r3_cell(chk, F, iterations, month):
+def _r3_cell(chk, F, iterations, month, full=False):
+    """full=True: the R4 pass - every i32 year, every month 1..12, every field value the validity predicate may accept; judged for
+    panics / wraps / lossy casts only (C13 relies on it for "any numeric magnitude")"""
     rule = "C08.R3"
     eng, D = ctx(F)
     A = EpochAlg(F, eng, D)
@@ -373,7 +394,10 @@ def _r3_cell(chk, F, iterations, month):
         if True:
             def setup(st, args, month=month):
                 # the statement's span of years (sampled out to +/-30 000): keeps the day count far from the Duration bounds
-                out = eng.assume(st, c_and(c_lin("eq", args[1].lin - month), c_and(c_lin("ge", args[0].lin + 30000), c_lin("le", args[0].lin - 30000))))
+                if full:
+                    out = eng.assume(st, c_lin("eq", args[1].lin - month))
+                else:
+                    out = eng.assume(st, c_and(c_lin("eq", args[1].lin - month), c_and(c_lin("ge", args[0].lin + 30000), c_lin("le", args[0].lin - 30000))))
                 res = []
                 for s2 in out:
                     # the validity predicate's accepted ranges (R1) for the remaining fields
@@ -391,6 +415,10 @@ def _r3_cell(chk, F, iterations, month):
             A.uninstall()
             eng.hooks.clear()
             y, mo, d, h, mi, s, ns = [a.lin for a in args[:7]]
+            if full:
+                no_bad_events(chk, "RULE-R4", "Epoch::maybe_from_gregorian[every i32 year]", finals, eng)
+                eng.max_paths = 20000
+                return sum(1 for st in finals if st.end == "return")
             for st in finals:
                 if st.end != "return":
                     continue
